@@ -79,4 +79,13 @@ records "`entry-instance/second` aggregates" -/
 theorem memo_left_behind :
     (canReplicateM (chain true true) {} (second true)).2 = { agg := [[e, lc "second"]] } := by decide
 
+/-- (g) the hypothesis "the hash tells different dictionaries apart" of `environment_binding_faithful` is needed: a
+hash that only looks at the variable NAMES binds the second component (same names, other values) to the first
+component's environment; the hash by canonical text keeps them apart. -/
+theorem names_only_hash_shares_environment :
+    (bindAll (fun d => d.takeWhile (· != '=')) [] [lc "MODE=fast", lc "MODE=accurate"]).1 = [0, 0] ∧
+    (bindAll (fun d => d.takeWhile (· != '=')) [] [lc "MODE=fast", lc "MODE=accurate"]).2 =
+      [(lc "MODE", lc "MODE=fast")] ∧
+    (bindAll (fun d => d) [] [lc "MODE=fast", lc "MODE=accurate"]).1 = [0, 1] := by decide
+
 end St4sd.C06.Witness
